@@ -103,6 +103,8 @@ def py_nodes(nd):
         return np.int64(nd[1]) if len(nd) == 2 else (np.int32(nd[1]), np.int64(nd[2]))
     if nd[1] == "tuple0":
         return ()
+    if nd[1] == "bool":
+        return True
     return {"float": 3.0, "list": [3], "tuple3": (2, 2, 2), "str": "3", "tuple-float": (2.0, 2.0)}[nd[1]]
 
 
@@ -575,6 +577,254 @@ def style_cases(rng):
     return out
 
 
+def lesson_cases(ctx, rng):
+    """cell families for the round-4 lessons L14..L26 (see the registry note for the table); every family compares with the
+    model through the ordinary checkers and with the independent stencils"""
+    import cuqi, collections
+    from cuqi.operator import FirstOrderFiniteDifference, SecondOrderFiniteDifference
+    from cuqi.distribution import GMRF, LMRF, CMRF
+    out = []
+
+    def refP(order, bc, dim):
+        r = ref_matrix(1 if order == 0 else order, "none" if order == 0 else bc, dim)
+        return r.T @ r
+
+    def gq(g, xs, mean, prec, order, bc, fam, xarr=None, v0=None):
+        """quadratic-form read-off of a 1-d field against the model and ref^T ref"""
+        dim = len(xs)
+        mvec = np.array(mean, dtype=float)
+        if v0 is None:
+            v0 = float(np.ravel(g.logpdf(mvec.copy()))[0])
+        v = float(np.ravel(g.logpdf(np.array(xs, dtype=float) if xarr is None else xarr))[0])
+        q_obs = -2.0 * (v - v0) / prec
+        d = np.array(xs, dtype=float) - mvec
+        q_ref = float(d @ (refP(order, bc, dim) @ d))
+        bad = not (abs(q_obs - q_ref) <= 1e-9 * (1 + abs(q_ref)))
+        return Case(expr="check_gmrf_quad_st %s 1%%nat %s %s %s %s %s %s" % (cst(), cnat(dim), cbc(bc), cnat(order), czvec(xs), czvec(mean), cq(q_obs if math.isfinite(q_obs) else 0.0)),
+                    meta={"op": "lesson", "what": fam, "dim": dim, "bc": bc, "order": order, "x": xs, "mean": mean, "prec": prec}, cell="lesson/" + fam, kind="TOLERANCE",
+                    impl_fail=("GMRF (%s, %s, order %d): quadratic form read off logpdf = %r, (x-mean)^T P (x-mean) = %r" % (fam, bc, order, q_obs, q_ref)) if bad else None,
+                    signature=("GMRF.logpdf|" + fam) if bad else "")
+
+    def lm(kind, dist, xs, loc, scale, bc, fam, xarr=None, dim=None):
+        dim = len(xs)
+        lvec = np.array(loc, dtype=float)
+        v0 = float(np.ravel(dist.logpdf(lvec.copy()))[0])
+        v = float(np.ravel(dist.logpdf(np.array(xs, dtype=float) if xarr is None else xarr))[0])
+        refd = ref_apply_1d(1, bc, np.array(xs, dtype=float) - lvec)
+        Drows = int_rows(dense(dist._diff_op.get_matrix()))
+        if kind == "lmrf":
+            obs, expect = scale * (v0 - v), float(np.sum(np.abs(refd)))
+            expr = "check_lmrf_st %s 1%%nat %s %s %s %s (Some %s) %s" % (cst(), cnat(dim), cbc(bc), czvec(xs), czvec(loc), cq(obs), copt(Drows, czmat))
+        else:
+            obs, expect = math.exp(v0 - v), float(np.prod(1.0 + (refd / scale) ** 2))
+            expr = "check_cmrf_st %s 1%%nat %s %s %s %s %s (Some %s) %s" % (cst(), cnat(dim), cbc(bc), cq(scale), czvec(xs), czvec(loc), cq(obs), copt(Drows, czmat))
+        bad = not (abs(obs - expect) <= 1e-9 * (1 + abs(expect)))
+        return Case(expr=expr, meta={"op": "lesson", "what": fam + "-" + kind, "dim": dim, "bc": bc, "x": xs, "loc": loc, "scale": scale}, cell="lesson/%s-%s" % (fam, kind), kind="TOLERANCE",
+                    impl_fail=("%s (%s, %s): data term %r, through the documented differences %r" % (kind.upper(), fam, bc, obs, expect)) if bad else None,
+                    signature=("%s.logpdf|%s" % (kind.upper(), fam)) if bad else "")
+
+    dim = 6
+    ints = lambda lo, hi, n=dim: [rng.randint(lo, hi) for _ in range(n)]
+    # ---- L14: a refused re-assignment after use leaves the object as it was ------------------------------------
+    for bc in ("zero", "neumann"):
+        x, m = ints(-6, 6), ints(-3, 3)
+        g = quiet(GMRF, np.array(m, dtype=float), 2.0, bc_type=bc)
+        g.logpdf(np.array(x, dtype=float)); g.sqrtprec
+        refused = False
+        try:
+            g.prec = np.array([1.0, 2.0])
+        except ValueError:
+            refused = True
+        c = gq(g, x, m, 2.0, 1, bc, "L14-refusal-after-use")
+        if not refused:
+            c.impl_fail = "GMRF.prec accepts a 2-element array after the object was used (refused on a fresh object)"
+            c.signature = "GMRF.prec|L14-refusal-after-use"
+        out.append(c)
+    # ---- L15: the caller overwrites the SAME array object in place between calls ------------------------------
+    for bc in ("zero", "periodic"):
+        x, m = ints(-6, 6), ints(-3, 3)
+        g = quiet(GMRF, np.array(m, dtype=float), 2.0, bc_type=bc)
+        xa = np.array(x, dtype=float)
+        v0 = float(np.ravel(g.logpdf(np.array(m, dtype=float)))[0])
+        g.logpdf(xa)
+        xa *= 2.0
+        xa += 1.0                                                  # same object, new content
+        out.append(gq(g, [2 * v + 1 for v in x], m, 2.0, 1, bc, "L15-inplace-overwritten-x", xarr=xa, v0=v0))
+        dl = LMRF(0, 0.5, bc_type=bc, geometry=dim)
+        xb = np.array(x, dtype=float)
+        dl.logpdf(xb)
+        xb *= 3.0
+        out.append(lm("lmrf", dl, [3 * v for v in x], [0] * dim, 0.5, bc, "L15-inplace-overwritten-x", xarr=xb))
+        op = build_fd(1, dim, bc, None)
+        xc = np.array(x, dtype=float)
+        op @ xc
+        xc -= 4.0
+        Dx = op @ xc
+        ref = ref_apply_1d(1, bc, np.array(x, dtype=float) - 4.0)
+        ok = np.array_equal(Dx, ref)
+        out.append(Case(expr="check_apply_st %s 1%%nat %s %s %s %s %s %s" % (cst(), cnodes(dim), cbc(bc), czvec([v - 4 for v in x]), czvec([0] * len(Dx)), czvec(int_rows(Dx)), czvec([0] * dim)),
+                        meta={"op": "lesson", "what": "L15-inplace-overwritten-x-op", "bc": bc, "x": x}, cell="lesson/L15-inplace-overwritten-x-op",
+                        impl_fail=None if ok else "D @ x after x was overwritten in place = %s, documented %s" % (Dx.tolist(), ref.tolist()),
+                        signature="" if ok else "FiniteDifference.__matmul__|L15-inplace-overwritten-x"))
+    # ---- L17 / L25: parameter given through a callable whose argument is named like the attribute; two conditioned
+    #      copies alive at once, the FIRST evaluated (logpdf and sqrtprec) after the second was created and used ----
+    for bc in ("zero", "neumann"):
+        x, m = ints(-6, 6), ints(-3, 3)
+        G = quiet(GMRF, np.array(m, dtype=float), lambda prec: 1.0 / prec, bc_type=bc)
+        g1 = quiet(G, prec=4.0)                                    # effective precision 1/4
+        g2 = quiet(G, prec=0.5)                                    # effective precision 2
+        g2.logpdf(np.array(x, dtype=float)); g2.sqrtprec
+        out.append(gq(g1, x, m, 0.25, 1, bc, "L17-L25-named-like-attribute-first-of-two-copies"))
+        out.append(gq(g2, x, m, 2.0, 1, bc, "L17-L25-named-like-attribute-second-copy"))
+        R1 = dense(g1.sqrtprec)
+        shift = 0.0 if bc == "zero" else SQRT_EPS
+        bad = np.abs(R1.T @ R1 - 0.25 * (refP(1, bc, dim) + shift * np.eye(dim))).max() > 1e-9
+        out.append(Case(expr="check_sqrtprec_st %s 1%%nat %s %s 1%%nat %s %s" % (cst(), cnat(dim), cbc(bc), cq(0.25), cqmat(R1.tolist())),
+                        meta={"op": "lesson", "what": "L25-sqrtprec-first-of-two-copies", "bc": bc}, cell="lesson/L25-sqrtprec-first-of-two-copies", kind="TOLERANCE",
+                        impl_fail="sqrtprec of the first conditioned copy is not that of ITS precision after a second copy was used" if bad else None,
+                        signature="GMRF.sqrtprec|L25-shallow-copies" if bad else ""))
+        Ld = LMRF(np.array(m, dtype=float), lambda scale: 1.0 / scale, bc_type=bc, geometry=dim)
+        l1, l2 = Ld(scale=4.0), Ld(scale=0.5)
+        l2.logpdf(np.array(x, dtype=float))
+        out.append(lm("lmrf", l1, x, m, 0.25, bc, "L17-L25-named-like-attribute-first-of-two-copies"))
+        Cd = CMRF(np.array(m, dtype=float), lambda scale: 1.0 / scale, bc_type=bc, geometry=dim)
+        c1, c2 = Cd(scale=2.0), Cd(scale=0.5)
+        c2.logpdf(np.array(x, dtype=float))
+        out.append(lm("cmrf", c1, x, m, 0.5, bc, "L17-L25-named-like-attribute-first-of-two-copies"))
+    # ---- L18 / L26: exact zeros inside generic data; vectors of the null space (constant, affine), also with a large
+    #      common offset: the data term must be EXACTLY that of the differences ------------------------------------
+    for bc in ("zero", "periodic", "neumann"):
+        for order in (1, 2):
+            base = ints(1, 6)
+            zx = [0 if i % 2 else v for i, v in enumerate(base)]
+            zm = [0, 2] + [0] * (dim - 2)
+            g = quiet(GMRF, np.array(zm, dtype=float), 2.0, bc_type=bc, order=order)
+            out.append(gq(g, zx, zm, 2.0, order, bc, "L18-exact-zeros"))
+            m = ints(-3, 3)
+            g = quiet(GMRF, np.array(m, dtype=float), 2.0, bc_type=bc, order=order)
+            for fam, dlt in (("L18-null-space-constant", [5] * dim), ("L18-null-space-affine", [3 * i - 4 for i in range(dim)]),
+                             ("L26-null-space-offset-2^30", [2 ** 30] * dim)):
+                out.append(gq(g, [a + b for a, b in zip(m, dlt)], m, 2.0, order, bc, fam))
+        off = 2 ** 30
+        mo = [a + off for a in ints(-3, 3)]
+        g = quiet(GMRF, np.array(mo, dtype=float), 2.0, bc_type=bc)
+        out.append(gq(g, [a + rng.randint(-3, 3) for a in mo], mo, 2.0, 1, bc, "L26-large-common-offset"))
+        loc = ints(-3, 3)
+        for kind, cls, sc in (("lmrf", LMRF, 0.5), ("cmrf", CMRF, 0.5)):
+            d0 = cls(np.array(loc, dtype=float), sc, bc_type=bc, geometry=dim)
+            out.append(lm(kind, d0, [a + (0 if i % 2 else 3) for i, a in enumerate(loc)], loc, sc, bc, "L18-exact-zero-differences"))
+            out.append(lm(kind, d0, [a + 7 for a in loc], loc, sc, bc, "L18-null-space-constant"))
+            off = 2 ** 30
+            d1 = cls(np.array([a + off for a in loc], dtype=float), sc, bc_type=bc, geometry=dim)
+            xs = [a + off + rng.randint(-3, 3) for a in loc]
+            out.append(lm(kind, d1, xs, [a + off for a in loc], sc, bc, "L26-large-common-offset"))
+    # ---- L19 / L21: LMRF and CMRF evaluate a batch (columns = points), C- and Fortran-ordered, and a single column -----
+    for kind, cls in (("lmrf", LMRF), ("cmrf", CMRF)):
+        for bc in ("zero", "neumann"):
+            dist = cls(0, 0.5, bc_type=bc, geometry=dim)
+            cols = [ints(-6, 6) for _ in range(3)]
+            X = np.array(cols, dtype=float).T.copy()
+            for fam, arr in (("L19-batch-C-order", X), ("L19-batch-Fortran-order", np.asfortranarray(X)), ("L21-one-column", X[:, :1])):
+                vals = np.asarray(dist.logpdf(arr), dtype=float)
+                v0 = float(np.ravel(dist.logpdf(np.zeros(dim)))[0])
+                k = arr.shape[1]
+                exp_shape_ok = vals.shape == (k,)
+                bad_msgs = [] if exp_shape_ok else ["logpdf of a (dim, %d) batch has shape %s" % (k, vals.shape)]
+                vv = np.ravel(vals)
+                for j in range(min(k, len(vv))):
+                    refd = ref_apply_1d(1, bc, np.array(cols[j], dtype=float))
+                    if kind == "lmrf":
+                        obs, expect = 0.5 * (v0 - vv[j]), float(np.sum(np.abs(refd)))
+                    else:
+                        obs, expect = math.exp(v0 - vv[j]), float(np.prod(1.0 + (refd / 0.5) ** 2))
+                    if not abs(obs - expect) <= 1e-9 * (1 + abs(expect)):
+                        bad_msgs.append("column %d: data term %r, through the documented differences %r" % (j, obs, expect))
+                j = 0
+                obs0 = 0.5 * (v0 - vv[0]) if kind == "lmrf" else math.exp(v0 - vv[0])
+                Drows = int_rows(dense(dist._diff_op.get_matrix()))
+                expr = ("check_lmrf_st %s 1%%nat %s %s %s %s (Some %s) %s" % (cst(), cnat(dim), cbc(bc), czvec(cols[0]), czvec([0]), cq(obs0), copt(Drows, czmat))) if kind == "lmrf" else \
+                    ("check_cmrf_st %s 1%%nat %s %s %s %s %s (Some %s) %s" % (cst(), cnat(dim), cbc(bc), cq(0.5), czvec(cols[0]), czvec([0]), cq(obs0), copt(Drows, czmat)))
+                out.append(Case(expr=expr, meta={"op": "lesson", "what": fam + "-" + kind, "bc": bc, "cols": cols}, cell="lesson/%s-%s" % (fam, kind), kind="TOLERANCE",
+                                impl_fail="; ".join(bad_msgs) or None, signature=("%s.logpdf|%s" % (kind.upper(), fam)) if bad_msgs else ""))
+    # ---- L20: parameters stored with an integer dtype, evaluated at half-integer points ----------------------------
+    for bc in ("zero", "neumann"):
+        m = ints(-3, 3)
+        x2 = [2 * v + 1 for v in ints(-4, 4)]                       # twice the evaluation point (odd: half-integers)
+        g = quiet(GMRF, np.array(m, dtype=np.int64), 2, bc_type=bc)  # integer mean array, integer precision
+        m2 = [2 * v for v in m]
+        mvec = np.array(m, dtype=float)
+        v0 = float(np.ravel(g.logpdf(mvec))[0])
+        c = gq(g, x2, m2, 2.0, 1, bc, "L20-integer-parameters", xarr=np.array(x2, dtype=float) / 2.0, v0=v0)
+        # the read-off at x/2 is a quarter of the form at x (both x and mean doubled in the model)
+        vq = float(np.ravel(g.logpdf(np.array(x2, dtype=float) / 2.0))[0])
+        q_obs = -2.0 * (vq - v0) / 2.0 * 4.0
+        d = np.array(x2, dtype=float) - np.array(m2, dtype=float)
+        q_ref = float(d @ (refP(1, bc, dim) @ d))
+        bad = not abs(q_obs - q_ref) <= 1e-9 * (1 + abs(q_ref))
+        c.expr = "check_gmrf_quad_st %s 1%%nat %s %s 1%%nat %s %s %s" % (cst(), cnat(dim), cbc(bc), czvec(x2), czvec(m2), cq(q_obs))
+        c.impl_fail = ("GMRF with integer mean / precision at a half-integer point: 4 x quadratic form %r, expected %r" % (q_obs, q_ref)) if bad else None
+        c.signature = "GMRF.logpdf|L20-integer-parameters" if bad else ""
+        out.append(c)
+        for kind, cls in (("lmrf", LMRF), ("cmrf", CMRF)):
+            dist = cls(np.array(m, dtype=np.int64), 2, bc_type=bc, geometry=dim)     # integer location array, integer scale
+            lvec = np.array(m, dtype=float)
+            v0 = float(np.ravel(dist.logpdf(lvec))[0])
+            vh = float(np.ravel(dist.logpdf(np.array(x2, dtype=float) / 2.0))[0])
+            refd = ref_apply_1d(1, bc, np.array(x2, dtype=float) / 2.0 - lvec)
+            Drows = int_rows(dense(dist._diff_op.get_matrix()))
+            if kind == "lmrf":
+                obs, expect = 2.0 * (v0 - vh) * 2.0, 2.0 * float(np.sum(np.abs(refd)))      # doubled: l1 of the doubled data
+                expr = "check_lmrf_st %s 1%%nat %s %s %s %s (Some %s) %s" % (cst(), cnat(dim), cbc(bc), czvec(x2), czvec(m2), cq(obs), copt(Drows, czmat))
+            else:
+                obs, expect = math.exp(v0 - vh), float(np.prod(1.0 + (refd / 2.0) ** 2))
+                expr = "check_cmrf_st %s 1%%nat %s %s %s %s %s (Some %s) %s" % (cst(), cnat(dim), cbc(bc), cq(4.0), czvec(x2), czvec(m2), cq(obs), copt(Drows, czmat))
+            bad = not abs(obs - expect) <= 1e-9 * (1 + abs(expect))
+            out.append(Case(expr=expr, meta={"op": "lesson", "what": "L20-integer-parameters-" + kind, "bc": bc, "x2": x2, "loc": m}, cell="lesson/L20-integer-parameters-" + kind, kind="TOLERANCE",
+                            impl_fail=("%s with integer location / scale at a half-integer point: data term %r, expected %r" % (kind.upper(), obs, expect)) if bad else None,
+                            signature=("%s.logpdf|L20-integer-parameters" % kind.upper()) if bad else ""))
+    # ---- L22: the SHIPPED threshold config.MAX_DIM_INV = 2000, not a lowered one: dim 2001 (2000 in the thorough tier);
+    #      order 1 / neumann, whose pseudo-determinant is n for every n (Props/C20_det.v: C20_pdet_order1_neumann) --------
+    for n_big in ([2001] + ([2000] if ctx.thorough else [])):
+        mdi = int(cuqi.config.MAX_DIM_INV)
+        g, err = observe_gmrf(1, n_big, "neumann", 1)
+        took_reg = g is not None and not hasattr(g, "_L_eigval")
+        fail, sig = None, ""
+        if g is None:
+            fail, sig = "GMRF(dim=%d, neumann) refused: %s" % (n_big, err), "GMRF.__init__|refused"
+        else:
+            L = math.log(n_big)
+            dev = float(g._logdet) - L
+            hi = (SQRT_EPS * (n_big ** 2 - 1) / 6.0 + 1e-6) if (took_reg and bigdim_repaired()) else 1e-8     # trace(P^+) of the path Laplacian
+            if int(g._rank) != n_big - 1 or not (-1e-6 <= dev <= hi):
+                fail = "GMRF(dim=%d, neumann, order 1) with the shipped MAX_DIM_INV=%d: rank %d, logdet %r, ln n = %r" % (n_big, mdi, g._rank, float(g._logdet), L)
+                sig = SIG_BIGDIM if took_reg else SIG_RANK_OTHER
+        out.append(Case(expr="check_logdet_branch Neumann %s %s %s" % (cnat(n_big), cnat(mdi), cbool(took_reg)),
+                        meta={"op": "lesson", "what": "L22-shipped-threshold-%d" % n_big}, cell="lesson/L22-shipped-threshold", kind="DECISION",
+                        impl_fail=fail, signature=sig))
+    # ---- L23: subclass instances where the code tests types: tuple subclass as num_nodes, ndarray subclass (CUQIarray)
+    #      as evaluation point and as mean, geometries that subclass Continuous1D -----------------------------------------
+    NT = collections.namedtuple("NT", "nx ny")
+    for order, cls in ((1, FirstOrderFiniteDifference), (2, SecondOrderFiniteDifference)):
+        try:
+            M = dense(cls(NT(3, 3), bc_type="neumann").get_matrix())
+            rows, fail = int_rows(M), oracle_matrix(order, "neumann", 3, True, M)[0]
+        except Exception as e:
+            rows, fail = None, "a tuple subclass (namedtuple) as num_nodes is refused: %s" % type(e).__name__
+        out.append(Case(expr="check_fd_z_st %s %s (NTup2 3%%nat 3%%nat) Neumann %s" % (cst(), cnat(order), copt(rows, czmat)),
+                        meta={"op": "lesson", "what": "L23-tuple-subclass-%d" % order}, cell="lesson/L23-tuple-subclass",
+                        impl_fail=fail, signature="FiniteDifference.__init__|L23-tuple-subclass" if fail else ""))
+    for bc in ("zero", "neumann"):
+        x, m = ints(-6, 6), ints(-3, 3)
+        geo = cuqi.geometry.Continuous1D(dim)
+        g = quiet(GMRF, cuqi.array.CUQIarray(np.array(m, dtype=float), geometry=geo), 2.0, bc_type=bc)
+        out.append(gq(g, x, m, 2.0, 1, bc, "L23-CUQIarray-mean-and-point", xarr=cuqi.array.CUQIarray(np.array(x, dtype=float), geometry=geo)))
+        for gname, geom in (("StepExpansion", cuqi.geometry.StepExpansion(np.linspace(0, 1, 2 * dim), n_steps=dim)),
+                            ("KLExpansion", cuqi.geometry.KLExpansion(np.linspace(0, 1, dim)))):
+            g = quiet(GMRF, np.array(m, dtype=float), 2.0, bc_type=bc, geometry=geom)
+            out.append(gq(g, x, m, 2.0, 1, bc, "L23-geometry-subclass-" + gname))
+    return out
+
+
 def gmrf_class_signature(pd, dim, bc, order):
     N = dim if pd == 1 else int(math.isqrt(dim))
     if order == 0 and bc in ("periodic", "neumann"):
@@ -884,7 +1134,7 @@ def run(ctx):
                 cases.append(case_fd(order, ["t", n, n], bc))
     # ---- 4. malformed num_nodes -----------------------------------------------------------------------
     for order in (1, 2):
-        for nd in (["t", 2, 3], ["t", 3, 1], ["t", 0, 1], ["bad", "tuple0"], ["bad", "float"], ["bad", "list"], ["bad", "tuple3"], ["bad", "str"], ["bad", "tuple-float"]):
+        for nd in (["t", 2, 3], ["t", 3, 1], ["t", 0, 1], ["bad", "tuple0"], ["bad", "bool"], ["bad", "float"], ["bad", "list"], ["bad", "tuple3"], ["bad", "str"], ["bad", "tuple-float"]):
             cases.append(case_fd(order, nd, rng.choice(["zero", "periodic", "neumann"])))
     # ---- 5. precision operators -------------------------------------------------------------------------
     for order in (0, 1, 2, 3):
@@ -947,6 +1197,8 @@ def run(ctx):
                     cases += gmrf_cases(pd, dim, bc, order, rng, nvec=1, mdi=mdi)
     # ---- 7d. declaration styles, defaults, dtypes / layouts, re-assigned parameters --------------------------------
     cases += style_cases(rng)
+    # ---- 7e. round-4 lessons L14..L26 ------------------------------------------------------------------------------
+    cases += lesson_cases(ctx, rng)
     # ---- 8. LMRF / CMRF -----------------------------------------------------------------------------------
     for kind in ("lmrf", "cmrf"):
         for bc in allbc:
@@ -974,6 +1226,11 @@ def rebuild(meta, rng=None):
         return [case_fd(meta["order"], meta["nodes"], meta["bc"], dx=dx)]
     if op == "prec":
         return [case_prec(meta["order"], meta["nodes"], meta["bc"])]
+    if op == "lesson":
+        import random as _r
+        class _C:
+            thorough = False
+        return [c for c in lesson_cases(_C, _r.Random(0)) if c.meta.get("what") == meta.get("what")]
     if op == "style":
         import random as _r
         return [c for c in style_cases(_r.Random(0)) if c.meta.get("what") == meta.get("what")]
